@@ -40,17 +40,18 @@ def _state_indices(world, result):
     n = len(result["steps"])
     if n == 0:
         return []
+    max_states = int(world.get("max_states", MAX_STATES))
     pick = [0, n - 1]
     for i, s in enumerate(result["steps"]):
         if s["fault"] and i + 1 < n:
             pick.append(i + 1)
-    step = max(1, n // MAX_STATES)
+    step = max(1, n // max_states)
     pick.extend(range(0, n, step))
     out = []
     for i in pick:
         if i not in out:
             out.append(i)
-    return sorted(out[:MAX_STATES])
+    return sorted(out[:max_states])
 
 
 def _probe_points(world, result, m=3):
